@@ -5,10 +5,12 @@ package calls
 
 import (
 	"bufio"
+	"bytes"
 	"crypto"
 	"encoding/hex"
 	"encoding/json"
 	"fmt"
+	"io"
 	"math/big"
 	"math/rand"
 
@@ -35,6 +37,7 @@ type Call struct {
 	// decoded once by Prepare so that concurrent executions share the
 	// same (read-only) input slices
 	prepared     bool
+	opt          *ed25519.Options // built once: concurrent executions share the same *Options
 	a, b, c, ctx []byte
 	keys         []ed25519.PublicKey
 	msgs, sigs   [][]byte
@@ -56,6 +59,7 @@ func (c *Call) Prepare() {
 	for i := range c.sigs {
 		c.sigs[i] = uh(c.Sigs[i])
 	}
+	c.opt = &ed25519.Options{Hash: crypto.Hash(c.Hash), Context: string(c.ctx), ZIP215Verify: c.Zip}
 	c.prepared = true
 }
 
@@ -72,7 +76,7 @@ func opts(c *Call) *ed25519.Options {
 	if !c.prepared {
 		c.Prepare()
 	}
-	return &ed25519.Options{Hash: crypto.Hash(c.Hash), Context: string(c.ctx), ZIP215Verify: c.Zip}
+	return c.opt
 }
 
 // Execute runs the call against the library and renders every output.
@@ -106,7 +110,11 @@ func Execute(c *Call) (res string) {
 		return fmt.Sprint(ed25519.VerifyWithOptions(c.a, c.b, c.c, opts(c)))
 	case "batch":
 		keys, msgs, sigs := c.keys, c.msgs, c.sigs
-		ok, valid, err := ed25519.VerifyBatch(rand.New(rand.NewSource(c.ESeed)), keys, msgs, sigs, opts(c))
+		var rd io.Reader
+		if c.ESeed != 0 {
+			rd = rand.New(rand.NewSource(c.ESeed))
+		}
+		ok, valid, err := ed25519.VerifyBatch(rd, keys, msgs, sigs, opts(c))
 		s := fmt.Sprintf("%v/%v/", ok, err != nil)
 		for _, v := range valid {
 			if v {
@@ -290,6 +298,26 @@ func Generate(w *bufio.Writer, seed int64, rounds int) int {
 	return n
 }
 
+// ExecuteWithOptions runs the call with a caller-owned Options object
+// instead of the call's own one (the C15 monitor reuses one object across
+// calls and changes its fields in between, as a caller may).
+func ExecuteWithOptions(c *Call, o *ed25519.Options) string {
+	if !c.prepared {
+		c.Prepare()
+	}
+	cc := *c
+	cc.opt = o
+	return Execute(&cc)
+}
+
+// OptionsOf returns a fresh copy of the call's options.
+func OptionsOf(c *Call) ed25519.Options {
+	if !c.prepared {
+		c.Prepare()
+	}
+	return *c.opt
+}
+
 // ---- history pool (C15) ----
 
 // executeExtra handles the ops only the C15 pool uses.
@@ -298,6 +326,10 @@ func executeExtra(c *Call) (string, bool) {
 	case "genkey":
 		pub, priv, err := ed25519.GenerateKey(bytesReader(c.a))
 		return fmt.Sprintf("%s/%s/%v", hx(pub), hx(priv), err != nil), true
+	case "genkey-nil":
+		pub, priv, err := ed25519.GenerateKey(nil)
+		ok := err == nil && len(priv) == 64 && bytes.Equal(pub, priv[32:]) && bytes.Equal(ed25519.NewKeyFromSeed(priv.Seed()), priv)
+		return fmt.Sprintf("coherent=%v", ok), true
 	case "keyobj":
 		k := ed25519.NewKeyFromSeed(c.a)
 		k2 := ed25519.NewKeyFromSeed(c.b)
@@ -394,6 +426,31 @@ func GenerateHistoryPool(w *bufio.Writer, seed int64, groups int) int {
 			tw := ref.Variant{Ph: !v.Ph, Ctx: ctx}
 			verifyBoth(pub, msg, sig, tw, "twin-cross/"+gen.VariantName(tw))
 		}
+		// pairs that differ only in the context bytes (same length): executed by
+		// the monitor through ONE reused *Options object whose Context is
+		// changed between the calls
+		{
+			l := []int{1, 8, 32, 255}[rng.Intn(4)]
+			cA, cB := gen.RandBytes(rng, l), gen.RandBytes(rng, l)
+			sd2 := gen.Seed(rng)
+			m2 := gen.RandBytes(rng, 64)
+			for _, ph := range []bool{false, true} {
+				vA, vB := ref.Variant{Ph: ph, Ctx: cA}, ref.Variant{Ph: ph, Ctx: cB}
+				a := &Call{Op: "sign", Class: "ctxreuse/sign", A: hx(sd2), B: hx(m2)}
+				vfields(a, vA)
+				emit(a)
+				b := &Call{Op: "sign", Class: "ctxreuse/sign", A: hx(sd2), B: hx(m2)}
+				vfields(b, vB)
+				emit(b)
+				pub, sigA := ref.Sign(sd2, m2, vA)
+				va := &Call{Op: "verify", Class: "ctxreuse/verify", A: hx(pub), B: hx(m2), C: hx(sigA)}
+				vfields(va, vA)
+				emit(va)
+				vb := &Call{Op: "verify", Class: "ctxreuse/verify", A: hx(pub), B: hx(m2), C: hx(sigA)}
+				vfields(vb, vB) // signature made under context A presented under context B: false
+				emit(vb)
+			}
+		}
 		// batches: one that falls back, then all-valid ones (same and different variant), multi-chunk
 		v := gen.Variant(rng, -1)
 		mkBatch(v, []int{5, 8, 64}[rng.Intn(3)], 1+rng.Intn(2), rng.Intn(2) == 0, "batch-fallback")
@@ -402,6 +459,22 @@ func GenerateHistoryPool(w *bufio.Writer, seed int64, groups int) int {
 		if g%4 == 0 {
 			mkBatch(ref.Variant{Pure: true}, 130, 1, false, "batch-multichunk-fallback")
 			mkBatch(ref.Variant{Pure: true}, 130, 0, false, "batch-multichunk-valid")
+		}
+		// default entropy source (rand == nil): deterministic verdicts, coherent keys
+		{
+			c := &Call{Op: "batch", Class: "batch-nil-rand", Zip: false}
+			vfields(c, ref.Variant{Pure: true})
+			for k := 0; k < 6; k++ {
+				t := gen.Honest(rng, 0)
+				if k == 3 && g%2 == 0 {
+					t.Sig[5] ^= 2
+				}
+				c.Keys = append(c.Keys, hx(t.Pub))
+				c.Msgs = append(c.Msgs, hx(t.Msg))
+				c.Sigs = append(c.Sigs, hx(t.Sig))
+			}
+			emit(c)
+			emit(&Call{Op: "genkey-nil", Class: "genkey-nil-rand"})
 		}
 		// failing calls next to succeeding ones
 		h := gen.Honest(rng, 0)
